@@ -292,7 +292,8 @@ RUN_P = 'cabbacab'
 class Graph:
     """All client data of one render, built for (cfg, assignment, parameters)."""
 
-    def __init__(self, cfg, assign, params, w):
+    def __init__(self, cfg, assign, params, w, need=None):
+        self.need = need              # names the template can reach (None: everything)
         self.cfg = cfg
         self.assign = assign          # 'a' | 'b' | 'c' (c = falsy secrets)
         self.p = params
@@ -356,8 +357,8 @@ class Graph:
                 lnm = aname('l', kind)
                 attrs[lnm] = [self.mkobj('%s.%s%d' % (tag, lnm, i), i, tainted=sec, depth=1)
                               for i in range(2)]
-            if kind == 'den' and self.cfg != 'none':
-                denied.extend(n_ for n_ in attrs if n_.endswith('_den'))
+        if self.cfg != 'none':
+            denied = [n_ for n_ in attrs if n_.endswith('_den')]
         attrs['zero'] = 0
         attrs['tpId'] = 'id-' + stag
         attrs['tpURL'] = 'url-' + stag
@@ -378,29 +379,41 @@ class Graph:
         return list(items)
 
     def build(self):
+        """Builds only what the template source can name (`need`), the rest stays absent."""
         w = self.w
         n = self.n
         p = self.p['p']
-        self.c = self.mkobj('c')
-        d = pdict(self.c)
-        for kind in KINDS:       # only c0 carries the z family
-            d.pop(aname('z', kind))
-        self.c0 = self.mkobj('c0')
-        self.o = self.mkobj('o')
-        self.items = [self.mkobj('i%d' % j, j) for j in range(n)]
-        self.ditems = [self.mkobj('d%d' % j, j, tainted=(j == p)) for j in range(n)]
-        w.denied_items.add(id(self.ditems[p]))
+        need = self.need
         ns = {}
-        ns['o'] = self.o
-        ns['seq'] = self.container(self.items)
-        ns['dseq'] = self.container(self.ditems)
-        ns['pseq'] = PSeq(self.items)
-        ns['dpseq'] = PSeq(self.ditems)
-        ns['tseq'] = [('key%d' % j, it) for j, it in enumerate(self.items)]
+        self.c = self.c0 = None
+        if need is None or 'client' in need:
+            self.c = self.mkobj('c')
+            d = pdict(self.c)
+            for kind in KINDS:       # only c0 carries the z family
+                d.pop(aname('z', kind))
+            self.c0 = self.mkobj('c0')
+
+        def want(name):
+            return need is None or name in need
+        if want('o'):
+            ns['o'] = self.mkobj('o')
+        if want('seq') or want('pseq') or want('tseq'):
+            self.items = [self.mkobj('i%d' % j, j, depth=1) for j in range(n)]
+            ns['seq'] = self.container(self.items)
+            ns['pseq'] = PSeq(self.items)
+            ns['tseq'] = [('key%d' % j, it) for j, it in enumerate(self.items)]
+        if want('dseq') or want('dpseq'):
+            self.ditems = [self.mkobj('d%d' % j, j, tainted=(j == p), depth=1) for j in range(n)]
+            w.denied_items.add(id(self.ditems[p]))
+            ns['dseq'] = self.container(self.ditems)
+            ns['dpseq'] = PSeq(self.ditems)
         # mapping-mode sequences
-        mitems = []
-        for j in range(n):
-            for flavour, tainted in (('m', False), ('dm', j == p)):
+        for flavour in ('m', 'dm'):
+            if not want(flavour + 'seq'):
+                continue
+            ms = []
+            for j in range(n):
+                tainted = flavour == 'dm' and j == p
                 data = {}
                 tag = '%s%d' % (flavour, j)
                 for kind in KINDS:
@@ -413,27 +426,30 @@ class Graph:
                 if tainted:
                     w.denied_items.add(id(m))
                 w.keep.append(m)
-                mitems.append((flavour, m))
-        ns['mseq'] = [m for f, m in mitems if f == 'm']
-        ns['dmseq'] = [m for f, m in mitems if f == 'dm']
+                ms.append(m)
+            ns[flavour + 'seq'] = ms
         # keyed access in expressions
-        mpd = {'key_pub': self.sval('mp', 'key_pub', False)}
-        mpd['key_den'] = self.sval('mp', 'key_den', self.cfg != 'none')
-        if self.cfg != 'none':
-            w.denied_scalars.append(mpd['key_den'])
-        ns['mp'] = PMap(mpd, 'mp')
-        ns['md_map'] = dict((aname('s', k), self.sval('md_map', aname('s', k), self.secret_kind(k)))
-                            for k in KINDS)
+        if want('mp'):
+            mpd = {'key_pub': self.sval('mp', 'key_pub', False)}
+            mpd['key_den'] = self.sval('mp', 'key_den', self.cfg != 'none')
+            if self.cfg != 'none':
+                w.denied_scalars.append(mpd['key_den'])
+            ns['mp'] = PMap(mpd, 'mp')
+        if want('md_map'):
+            ns['md_map'] = dict((aname('s', k), self.sval('md_map', aname('s', k), self.secret_kind(k)))
+                                for k in KINDS)
         # url channel: absolute_url allowed on one object, refused on the other
-        ns['ou_pub'] = self.mkobj('ou_pub', extra={
-            'absolute_url': (lambda v=self.sval('ou_pub', 'absolute_url()', False): v)})
         sec = self.cfg != 'none'
-        ns['ou_den'] = self.mkobj('ou_den', extra={
-            'absolute_url': (lambda v=self.sval('ou_den', 'absolute_url()', sec): v)})
-        if sec:
-            w.denied_attrs.add((id(ns['ou_den']), 'absolute_url'))
-        # tree
-        ns['root'] = self.mktree()
+        if want('ou_pub'):
+            ns['ou_pub'] = self.mkobj('ou_pub', depth=1, extra={
+                'absolute_url': (lambda v=self.sval('ou_pub', 'absolute_url()', False): v)})
+        if want('ou_den'):
+            ns['ou_den'] = self.mkobj('ou_den', depth=1, extra={
+                'absolute_url': (lambda v=self.sval('ou_den', 'absolute_url()', sec): v)})
+            if sec:
+                w.denied_attrs.add((id(ns['ou_den']), 'absolute_url'))
+        if want('root'):
+            ns['root'] = self.mktree()
         ns['spy'] = Spy('spy')
         ns['cmpspy'] = Spy('cmpspy', lambda a, b: (a > b) - (a < b))
         ns['URL'] = 'http://host/folder/page'
